@@ -158,6 +158,10 @@ class Gen:
             elif info["kind"] == "r":
                 for j in range(info["minsize"]):
                     out.append((["item", p, j], "r:%s:%d" % (p, j)))
+                for p2, info2 in params.items():
+                    if info2["kind"] == "i":
+                        # a register parameter indexed by an index parameter
+                        out.append((["item", p, p2], "ri:%s:%s" % (p, p2)))
         for s_, i in sorted(self.singles.items()):
             if s_ not in params:
                 out.append((["id", s_], i))
@@ -184,6 +188,9 @@ class Gen:
         # weight aliases / direct per swarm
         direct = [c for c in cands if c[0][0] == "item" and c[0][1] == self.rname and isinstance(c[0][2], int)]
         fancy = [c for c in cands if c not in direct]
+        ri = [c for c in cands if isinstance(c[1], str) and c[1].startswith("ri:")]
+        if ri and t.chance(0.5):
+            fancy = ri
         chosen, keys = [], set()
         for _ in range(k):
             pool = fancy if (fancy and t.chance(self.cfg["p_alias_use"])) else (direct or fancy)
@@ -198,6 +205,9 @@ class Gen:
             if isinstance(c[1], str) and c[1].startswith("i:"):
                 _, r_, p = c[1].split(":")
                 params[p].setdefault("lens", []).append(len(self.regs[r_]))
+            if isinstance(c[1], str) and c[1].startswith("ri:"):
+                _, pr, pi = c[1].split(":")
+                params[pi].setdefault("lens", []).append(params[pr]["minsize"])
         return chosen
 
     def angle(self, params):
@@ -497,6 +507,10 @@ class Gen:
             info[p] = {"kind": kd}
             if kd == "r":
                 info[p]["minsize"] = t.randint(1, 2)
+        rs = [p for p in pnames if info[p]["kind"] == "r"]
+        others = [p for p in pnames if info[p]["kind"] != "r"]
+        if rs and others and t.chance(0.5):
+            info[t.choice(others)] = {"kind": "i"}  # a register parameter indexed by an index parameter
         role = "bracket" if (self.exec and t.chance(0.3)) else "gates"
         self.in_macro = True
         if not self.exec:
